@@ -2,9 +2,12 @@ package c09
 
 import (
 	"fmt"
+	"math/big"
+	"sort"
 	"strings"
 	"time"
 
+	sdkmath "cosmossdk.io/math"
 	sdk "github.com/cosmos/cosmos-sdk/types"
 
 	dakeeper "github.com/sunriselayer/sunrise/x/da/keeper"
@@ -15,10 +18,17 @@ import (
 )
 
 // realHistory drives one long history through the real message handlers (PublishData,
-// SubmitInvalidity, RegisterProofDeputy, SubmitValidityProof with real Groth16 proofs) and
-// full FinalizeBlock/Commit blocks. Every block is observed: the projection is read just before
-// the block (on a scratch context that already ran the staking end blocker, which precedes the
-// DA end blocker in the block) and just after it.
+// SubmitInvalidity, RegisterProofDeputy, UnregisterProofDeputy, SubmitValidityProof with real
+// Groth16 proofs) and full FinalizeBlock/Commit blocks. Every block is observed: the projection
+// is read just before the block (on a scratch context that already ran the staking end blocker,
+// which precedes the DA end blocker in the block) and just after it.
+//
+// Ghost state: the harness records, for every accepted SubmitValidityProof, WHICH VALIDATOR the
+// proof was for (msg.ValidatorAddress) and its index list; a later accepted submission for the
+// same (item, validator) replaces the earlier one, whoever signed it (the validator's own key
+// or its registered deputy). The model and the monitors are fed these proofs-in-force, never
+// the Sender field of the stored records; the stored records are dumped next to them and must be
+// the same set (one record per validator, filed under the validator's account address).
 type realHistory struct {
 	w       *world
 	r       *emit.Rand
@@ -27,8 +37,13 @@ type realHistory struct {
 	hash    []byte
 	seq     int
 	msgHist map[string]int
-	subs    []submission // every SubmitValidityProof of the current round
+	subs    []submission               // every SubmitValidityProof of the current round
+	ghost   map[string]map[int][]int64 // uri -> validator id -> indices of the proof in force
+	deputy  map[int]int                // validator index -> account index of its registered deputy
 }
+
+// accounts: 0-1 publishers, 1-3 challengers, 4.. deputies
+const firstDeputyAcct = 4
 
 // submission records one SubmitValidityProof message and whether the handler stored it.
 type submission struct {
@@ -36,6 +51,8 @@ type submission struct {
 	Indices  []int64
 	Accepted bool
 	Err      string
+	Via      string
+	Val      int
 }
 
 func (s submission) coq() string {
@@ -57,18 +74,8 @@ func newRealHistory(w *world, r *emit.Rand) (*realHistory, error) {
 	if err := w.h.App.DaKeeper.Params.Set(ctx, params); err != nil {
 		return nil, err
 	}
-	rh := &realHistory{w: w, r: r, srv: dakeeper.NewMsgServerImpl(w.h.App.DaKeeper), proofBz: pb, hash: hash, msgHist: map[string]int{}}
-	// validator 2 (if any) proves through a deputy
-	if len(w.vals) > 1 {
-		err := apph.Tx(ctx, func(ctx sdk.Context) error {
-			_, e := rh.srv.RegisterProofDeputy(ctx, &datypes.MsgRegisterProofDeputy{Sender: sdk.AccAddress(w.vals[1].op).String(), DeputyAddress: w.h.Accts[3].Addr.String()})
-			return e
-		})
-		if err != nil {
-			return nil, err
-		}
-	}
-	return rh, nil
+	return &realHistory{w: w, r: r, srv: dakeeper.NewMsgServerImpl(w.h.App.DaKeeper), proofBz: pb, hash: hash,
+		msgHist: map[string]int{}, ghost: map[string]map[int][]int64{}, deputy: map[int]int{}}, nil
 }
 
 func errClass(err error) string {
@@ -101,6 +108,107 @@ func (rh *realHistory) msg(kind string, f func(ctx sdk.Context) error) error {
 	return err
 }
 
+// ---------------------------------------------------------------- deputies
+
+func (rh *realHistory) registerDeputy(vi, acct int) error {
+	w := rh.w
+	err := rh.msg("register-deputy", func(ctx sdk.Context) error {
+		_, e := rh.srv.RegisterProofDeputy(ctx, &datypes.MsgRegisterProofDeputy{Sender: sdk.AccAddress(w.vals[vi].op).String(), DeputyAddress: w.h.Accts[acct].Addr.String()})
+		return e
+	})
+	if err == nil {
+		rh.deputy[vi] = acct
+	}
+	return err
+}
+
+func (rh *realHistory) unregisterDeputy(vi int) error {
+	w := rh.w
+	err := rh.msg("unregister-deputy", func(ctx sdk.Context) error {
+		_, e := rh.srv.UnregisterProofDeputy(ctx, &datypes.MsgUnregisterProofDeputy{Sender: sdk.AccAddress(w.vals[vi].op).String()})
+		return e
+	})
+	if err == nil {
+		delete(rh.deputy, vi)
+	}
+	return err
+}
+
+// otherDeputy picks a deputy account different from the validator's current one.
+func (rh *realHistory) otherDeputy(vi int) int {
+	nd := len(rh.w.h.Accts) - firstDeputyAcct
+	cur, has := rh.deputy[vi]
+	a := firstDeputyAcct + rh.r.Intn(nd)
+	if has && a == cur {
+		a = firstDeputyAcct + (a-firstDeputyAcct+1)%nd
+	}
+	return a
+}
+
+// churnDeputies registers, re-registers and unregisters deputies at random.
+func (rh *realHistory) churnDeputies() {
+	for vi := range rh.w.vals {
+		_, has := rh.deputy[vi]
+		switch {
+		case !has && rh.r.Chance(1, 3):
+			rh.registerDeputy(vi, rh.otherDeputy(vi))
+		case has && rh.r.Chance(1, 5):
+			rh.registerDeputy(vi, rh.otherDeputy(vi)) // re-registration replaces the deputy
+		case has && rh.r.Chance(1, 6):
+			rh.unregisterDeputy(vi)
+		case !has && rh.r.Chance(1, 12):
+			rh.unregisterDeputy(vi) // refused: nothing registered
+		}
+	}
+}
+
+// ---------------------------------------------------------------- submissions
+
+const (
+	viaOwn = iota
+	viaDeputy
+	viaStranger // an account that is not (or no longer) the validator's deputy
+)
+
+// submit sends one MsgSubmitValidityProof for validator vi and keeps the ghost state.
+func (rh *realHistory) submit(vi int, uri string, n int, idx []int64, via int) error {
+	w := rh.w
+	v := w.vals[vi]
+	sender := sdk.AccAddress(v.op).String()
+	viaName := "own-key"
+	switch via {
+	case viaDeputy:
+		if a, ok := rh.deputy[vi]; ok {
+			sender = w.h.Accts[a].Addr.String()
+			viaName = "deputy"
+		}
+	case viaStranger:
+		sender = w.h.Accts[rh.otherDeputy(vi)].Addr.String()
+		viaName = "stranger"
+	}
+	proofs := make([][]byte, len(idx))
+	for j := range proofs {
+		proofs[j] = rh.proofBz
+	}
+	e := rh.msg("proof:"+viaName, func(ctx sdk.Context) error {
+		_, e := rh.srv.SubmitValidityProof(ctx, &datypes.MsgSubmitValidityProof{Sender: sender, ValidatorAddress: v.op.String(), MetadataUri: uri, Indices: idx, Proofs: proofs})
+		return e
+	})
+	sub := submission{N: n, Indices: append([]int64{}, idx...), Accepted: e == nil, Via: viaName, Val: v.id}
+	if e != nil {
+		sub.Err = errClass(e)
+	} else {
+		if rh.ghost[uri] == nil {
+			rh.ghost[uri] = map[int][]int64{}
+		}
+		rh.ghost[uri][v.id] = append([]int64{}, idx...) // the proof in force for this validator
+	}
+	rh.subs = append(rh.subs, sub)
+	return e
+}
+
+// ---------------------------------------------------------------- blocks
+
 // observedBlock runs one full block and returns its case.
 func (rh *realHistory) observedBlock(dt time.Duration) (blockResult, error) {
 	w := rh.w
@@ -111,6 +219,19 @@ func (rh *realHistory) observedBlock(dt time.Duration) (blockResult, error) {
 		return blockResult{}, err
 	}
 	pre := w.readPre(pctx)
+	// the proofs in force come from the ghost state, not from the stored Sender fields
+	for i := range pre.Items {
+		g := rh.ghost[pre.Items[i].URI]
+		ids := make([]int, 0, len(g))
+		for id := range g {
+			ids = append(ids, id)
+		}
+		sort.Ints(ids)
+		pre.Items[i].Proofs = nil
+		for _, id := range ids {
+			pre.Items[i].Proofs = append(pre.Items[i].Proofs, proofRec{Sender: id, Indices: g[id]})
+		}
+	}
 	resp, err := w.h.Block(dt, nil)
 	var obs blockObs
 	if err != nil {
@@ -120,64 +241,40 @@ func (rh *realHistory) observedBlock(dt time.Duration) (blockResult, error) {
 	} else {
 		obs = w.readPost(w.h.Ctx(), pre, evtsOfABCI(resp.Events))
 	}
+	for i, it := range pre.Items {
+		if i < len(obs.Status) && obs.Status[i] != stChallenging {
+			delete(rh.ghost, it.URI)
+		}
+	}
 	res := blockResult{Pre: pre, Obs: obs, Term: fmt.Sprintf("CBlock %s %s", pre.coq(), obs.coq(pre.IDs)),
 		Info: map[string]any{"kind": "real-block", "height": w.h.Height, "pre": pre.info(), "observed": obs.info(pre.IDs)}}
 	return res, nil
 }
 
-// round publishes items, challenges them, lets validators answer and returns the blocks run.
-// flags: dup / oor submissions seen in this round.
-func (rh *realHistory) round() (blocks []blockResult, dup, oor bool, err error) {
+type pubItem struct {
+	uri string
+	n   int
+}
+
+// publish publishes nItems items with the given shard counts (parity as given) and has them
+// challenged so that the next block moves them to Challenging.
+func (rh *realHistory) publish(ns []int, parities []uint64) ([]pubItem, error) {
 	w, r := rh.w, rh.r
-	add := func(dt time.Duration) error {
-		b, e := rh.observedBlock(dt)
-		if e != nil {
-			return e
-		}
-		blocks = append(blocks, b)
-		return nil
-	}
-	ctx := w.h.Ctx()
-	params, err := w.h.App.DaKeeper.Params.Get(ctx)
-	if err != nil {
-		return nil, false, false, err
-	}
-	// sometimes change the replication factor / fault threshold between rounds
-	if r.Chance(1, 2) {
-		params.ReplicationFactor = emit.Pick(r, "5", "3", "1.5", "2", "4.5", "1")
-		params.SlashFaultThreshold = emit.Pick(r, "0.5", "0.34", "0.2", "0.75")
-		if err := w.h.App.DaKeeper.Params.Set(ctx, params); err != nil {
-			return nil, false, false, err
-		}
-	}
-	// occasionally bring jailed validators back so that the history does not run out of validators
-	for _, v := range w.vals {
-		vi := w.vinfoOf(ctx, v)
-		if vi.Exists && vi.Jailed && r.Chance(1, 2) {
-			if e := w.h.App.StakingKeeper.Unjail(ctx, v.cons); e != nil {
-				return nil, false, false, e
-			}
-			rh.msgHist["unjail"]++
-		}
-	}
-	nItems := 1 + r.Intn(3)
-	var uris []string
-	var ns []int
-	for i := 0; i < nItems; i++ {
+	var out []pubItem
+	for i, n := range ns {
 		rh.seq++
 		uri := fmt.Sprintf("c09/real/%04d", rh.seq)
-		n := 2 + r.Intn(5)
-		parity := uint64(r.Intn(n))
 		hs := make([][]byte, n)
 		for j := range hs {
 			hs[j] = rh.hash
 		}
 		pub := w.h.Accts[r.Intn(2)].Addr.String()
+		parity := parities[i]
 		if e := rh.msg("publish", func(ctx sdk.Context) error {
 			_, e := rh.srv.PublishData(ctx, &datypes.MsgPublishData{Sender: pub, MetadataUri: uri, ParityShardCount: parity, ShardDoubleHashes: hs})
 			return e
 		}); e != nil {
-			return nil, false, false, fmt.Errorf("publish: %w", e)
+			return nil, fmt.Errorf("publish: %w", e)
 		}
 		// challengers dispute every shard so that the item certainly reaches Challenging
 		nch := 1 + r.Intn(3)
@@ -196,21 +293,187 @@ func (rh *realHistory) round() (blocks []blockResult, dup, oor bool, err error) 
 				_, e := rh.srv.SubmitInvalidity(ctx, &datypes.MsgSubmitInvalidity{Sender: ch, MetadataUri: uri, Indices: idx})
 				return e
 			}); e != nil {
-				return nil, false, false, fmt.Errorf("invalidity: %w", e)
+				return nil, fmt.Errorf("invalidity: %w", e)
 			}
 		}
-		uris = append(uris, uri)
+		out = append(out, pubItem{uri, n})
+	}
+	return out, nil
+}
+
+// bondedVals lists the validators (indices) that can submit proofs now.
+func (rh *realHistory) bondedVals() []int {
+	ctx := rh.w.h.Ctx()
+	var out []int
+	for vi, v := range rh.w.vals {
+		x := rh.w.vinfoOf(ctx, v)
+		if x.Exists && x.Bonded && !x.Jailed {
+			out = append(out, vi)
+		}
+	}
+	return out
+}
+
+// needed = the least number of distinct provers that makes a shard safe (parity 0).
+func needed(rf string) int {
+	raw := sdkmath.LegacyMustNewDecFromStr(rf).BigInt()
+	t := new(big.Int).Mul(raw, big.NewInt(2))
+	t.Quo(t, big.NewInt(3))
+	one := new(big.Int).Exp(big.NewInt(10), big.NewInt(18), nil)
+	k := new(big.Int).Add(t, new(big.Int).Sub(one, big.NewInt(1)))
+	k.Quo(k, one)
+	if k.Sign() <= 0 {
+		return 1
+	}
+	return int(k.Int64())
+}
+
+func allIdx(n int) []int64 {
+	out := make([]int64, n)
+	for i := range out {
+		out[i] = int64(i)
+	}
+	return out
+}
+
+// round kinds
+const (
+	rndRandom       = iota
+	rndOwnAndDeputy // validator X proves with its own key and again through its deputy; distinct provers one short
+	rndReRegister   // X proves through deputy D1, re-registers D2, proves again through D2; one short
+	rndDeputyOnly   // X proves its assigned shards only through its deputy, the shards are safe: no fault
+)
+
+// round publishes items, challenges them, lets validators answer and returns the blocks run.
+func (rh *realHistory) round(kind int) (blocks []blockResult, oor bool, err error) {
+	w, r := rh.w, rh.r
+	add := func(dt time.Duration) error {
+		b, e := rh.observedBlock(dt)
+		if e != nil {
+			return e
+		}
+		b.Info["round_kind"] = kind
+		blocks = append(blocks, b)
+		return nil
+	}
+	ctx := w.h.Ctx()
+	params, err := w.h.App.DaKeeper.Params.Get(ctx)
+	if err != nil {
+		return nil, false, err
+	}
+	// bring jailed validators back so that the history does not run out of validators
+	bonded := rh.bondedVals()
+	for _, v := range w.vals {
+		vi := w.vinfoOf(ctx, v)
+		if vi.Exists && vi.Jailed && (len(bonded) < 2 || r.Chance(1, 2)) {
+			if e := w.h.App.StakingKeeper.Unjail(ctx, v.cons); e != nil {
+				return nil, false, e
+			}
+			rh.msgHist["unjail"]++
+		}
+	}
+	if kind == rndRandom {
+		rh.churnDeputies()
+	}
+	// replication factor / fault threshold of the round
+	rf := emit.Pick(r, "5", "3", "1.5", "2", "4.5", "1")
+	directedX := -1
+	if kind != rndRandom && len(bonded) > 0 {
+		directedX = bonded[r.Intn(len(bonded))]
+		// the largest threshold the bonded set can serve: others = k-2 (verdict rounds) / k-1 (fault round)
+		rf = "3"
+		for _, c := range []string{"5", "4.5", "3"} {
+			k := needed(c)
+			if kind == rndDeputyOnly && k-1 <= len(bonded)-1 {
+				rf = c
+				break
+			}
+			if kind != rndDeputyOnly && k >= 2 && k-2 <= len(bonded)-1 {
+				rf = c
+				break
+			}
+		}
+	}
+	params.ReplicationFactor = rf
+	params.SlashFaultThreshold = emit.Pick(r, "0.5", "0.34", "0.2", "0.75")
+	if err := w.h.App.DaKeeper.Params.Set(ctx, params); err != nil {
+		return nil, false, err
+	}
+	var ns []int
+	var ps []uint64
+	nItems := 1 + r.Intn(3)
+	for i := 0; i < nItems; i++ {
+		n := 2 + r.Intn(5)
 		ns = append(ns, n)
+		if kind != rndRandom && i == 0 {
+			ps = append(ps, 0)
+		} else {
+			ps = append(ps, uint64(r.Intn(n)))
+		}
+	}
+	items, err := rh.publish(ns, ps)
+	if err != nil {
+		return nil, false, err
 	}
 	// next block moves them to Challenging
 	if err := add(5 * time.Second); err != nil {
-		return nil, false, false, err
+		return nil, false, err
 	}
-	// validators answer
 	ctx = w.h.Ctx()
-	for i, uri := range uris {
-		n := ns[i]
+	bonded = rh.bondedVals()
+	for i, it := range items {
+		n := it.n
 		thr := w.threshold(ctx, n)
+		if kind != rndRandom && i == 0 && directedX >= 0 {
+			// directed item: X and a chosen number of other provers, everybody lists every shard
+			k := needed(rf)
+			others := k - 2
+			if kind == rndDeputyOnly {
+				others = k - 1 + r.Intn(2)
+			} else if r.Chance(1, 4) {
+				others = k - 1 // X's single proof completes the threshold: Verified either way
+			}
+			cnt := 0
+			for _, vi := range bonded {
+				if vi == directedX || cnt >= others {
+					continue
+				}
+				rh.submit(vi, it.uri, n, allIdx(n), viaOwn)
+				cnt++
+			}
+			x := directedX
+			if _, has := rh.deputy[x]; !has {
+				if e := rh.registerDeputy(x, rh.otherDeputy(x)); e != nil {
+					return nil, false, e
+				}
+			}
+			var mine []int64
+			if thr != nil {
+				mine = datypes.ShardIndicesForValidator(w.vals[x].op, int64(*thr), int64(n))
+			}
+			switch kind {
+			case rndOwnAndDeputy:
+				if r.Bool() {
+					rh.submit(x, it.uri, n, allIdx(n), viaOwn)
+					rh.submit(x, it.uri, n, allIdx(n), viaDeputy)
+				} else {
+					rh.submit(x, it.uri, n, allIdx(n), viaDeputy)
+					rh.submit(x, it.uri, n, allIdx(n), viaOwn)
+				}
+			case rndReRegister:
+				rh.submit(x, it.uri, n, allIdx(n), viaDeputy)
+				if e := rh.registerDeputy(x, rh.otherDeputy(x)); e != nil {
+					return nil, false, e
+				}
+				rh.submit(x, it.uri, n, allIdx(n), viaDeputy)
+				if r.Bool() {
+					rh.submit(x, it.uri, n, allIdx(n), viaOwn)
+				}
+			case rndDeputyOnly:
+				rh.submit(x, it.uri, n, mine, viaDeputy)
+			}
+			continue
+		}
 		for vi, v := range w.vals {
 			var idx []int64
 			var assigned []int64
@@ -218,75 +481,65 @@ func (rh *realHistory) round() (blocks []blockResult, dup, oor bool, err error) 
 				assigned = datypes.ShardIndicesForValidator(v.op, int64(*thr), int64(n))
 			}
 			b := r.Intn(9)
-			if vi == 0 {
-				b = 2 // validator 1 always proves everything: it is never slashed
+			if vi == 0 && kind == rndRandom {
+				b = 2 // validator 1 mostly proves everything
 			}
-			expectFail := false
 			switch b {
 			case 0:
 				continue
 			case 1, 8:
 				idx = append(idx, assigned...)
 			case 2, 3:
-				for j := 0; j < n; j++ {
-					idx = append(idx, int64(j))
-				}
+				idx = allIdx(n)
 			case 4: // every assigned index twice
 				for _, x := range assigned {
 					idx = append(idx, x, x)
 				}
-				dup = dup || len(assigned) > 0
 			case 5: // one index many times
 				x := int64(r.Intn(n))
 				for j := 0; j < 2+r.Intn(4); j++ {
 					idx = append(idx, x)
 				}
-				dup = true
 			case 6: // out of range: the whole message must be refused
 				idx = append(append(idx, assigned...), int64(n))
-				oor, expectFail = true, true
-			case 7: // negative index: the handler panics, the transaction is rolled back
+				oor = true
+			case 7: // negative index: refused
 				idx = append(append(idx, assigned...), -1)
-				oor, expectFail = true, true
+				oor = true
 			}
-			proofs := make([][]byte, len(idx))
-			for j := range proofs {
-				proofs[j] = rh.proofBz
+			via := viaOwn
+			if _, has := rh.deputy[vi]; has && r.Bool() {
+				via = viaDeputy
+			} else if r.Chance(1, 12) {
+				via = viaStranger // refused: not the registered deputy
 			}
-			sender := sdk.AccAddress(v.op).String()
-			if vi == 1 {
-				sender = w.h.Accts[3].Addr.String() // the registered deputy
-			}
-			e := rh.msg("proof", func(ctx sdk.Context) error {
-				_, e := rh.srv.SubmitValidityProof(ctx, &datypes.MsgSubmitValidityProof{Sender: sender, ValidatorAddress: v.op.String(), MetadataUri: uri, Indices: idx, Proofs: proofs})
-				return e
-			})
-			_ = expectFail
-			sub := submission{N: n, Indices: append([]int64{}, idx...), Accepted: e == nil}
-			if e != nil {
-				sub.Err = errClass(e)
-			}
-			rh.subs = append(rh.subs, sub)
-			// proving twice: a second submission replaces the first
-			if e == nil && r.Chance(1, 5) {
-				rh.msg("proof-again", func(ctx sdk.Context) error {
-					_, e := rh.srv.SubmitValidityProof(ctx, &datypes.MsgSubmitValidityProof{Sender: sender, ValidatorAddress: v.op.String(), MetadataUri: uri, Indices: idx, Proofs: proofs})
-					return e
-				})
+			e := rh.submit(vi, it.uri, n, idx, via)
+			// proving twice: a second submission for the same validator replaces the first,
+			// by the same or the other key, sometimes with another index list
+			if e == nil && r.Chance(1, 3) {
+				via2 := viaOwn
+				if _, has := rh.deputy[vi]; has && r.Bool() {
+					via2 = viaDeputy
+				}
+				idx2 := idx
+				if r.Chance(1, 3) {
+					idx2 = append([]int64{}, assigned...)
+				}
+				rh.submit(vi, it.uri, n, idx2, via2)
 			}
 		}
 	}
 	// a block inside the proof period (nothing is due), then past the deadline
 	if err := add(30 * time.Second); err != nil {
-		return nil, false, false, err
+		return nil, false, err
 	}
 	if err := add(params.ProofPeriod + time.Duration(r.Intn(3))*time.Second); err != nil {
-		return nil, false, false, err
+		return nil, false, err
 	}
 	if r.Chance(1, 2) {
 		if err := add(5 * time.Second); err != nil {
-			return nil, false, false, err
+			return nil, false, err
 		}
 	}
-	return blocks, dup, oor, nil
+	return blocks, oor, nil
 }
